@@ -457,6 +457,10 @@ func scenariosFor(tier string) []vrt.Scenario {
 	}
 	// config-file mode, the limit reached at the very start of the first stage
 	add(b-1, cfg{mode: "file", maxDur: ms(2000), limit: 1, cancelAt: never, body: "instant"})
+	// config-file mode ending by the plan's own end (600 ms, well before max-duration) with iterations that never finish:
+	// the completion timeout starts then, not at max-duration
+	add(b-1, cfg{mode: "file", maxDur: ms(4000), cancelAt: never, body: "forever"})
+	add(b-1, cfg{mode: "file-users-first", maxDur: ms(4000), cancelAt: never, body: "first-forever", conc: 2})
 	add(b-1, cfg{mode: "file-users-first", maxDur: ms(2000), limit: 2, cancelAt: never, body: "sleep30", conc: 2})
 	// the limit is reached while iterations that never finish are in flight: the completion timeout still bounds the wait
 	add(b-1, cfg{mode: "constant", maxDur: ms(2000), limit: 3, cancelAt: never, body: "first-forever", conc: 2})
